@@ -472,13 +472,9 @@ def write_read_roundtrip_full : Prop :=
   ∀ z a mask force out, SpecZip.parse z = some a → contigFrom a 0 a.members = true →
     rewriteKeep z mask force = .ok out → SpecZip.valid out
 
-/-- the same under `relicReadable` (which excludes the empty member with a 24-byte descriptor).  PROVED with one more
-    clause — every extra field at most 65507 bytes, `extraRoom` — as `write_read_roundtrip_readable_partial` /
-    `rewrite_roundtrip` (Props/C17_Write.lean); without that clause the statement fails for ≥ 4 GiB members
-    (`extraRoom_necessary`, F7g), so this form stays a `def`. -/
-def write_read_roundtrip_readable : Prop :=
-  ∀ z a mask force out, SpecZip.parse z = some a → contigFrom a 0 a.members = true → relicReadable z →
-    rewriteKeep z mask force = .ok out → SpecZip.valid out
+/-! the same under `relicReadable` (which excludes the empty member with a 24-byte descriptor) is the theorem
+    `write_read_roundtrip_readable` of Props/C17_Write.lean (full strength for the code with fix-F7g; for the code before
+    that fix it needed one more clause: `extraRoom_necessary_orig`). -/
 
 /-- **rewrite_after_empty24_breaks (F7a, the consequence).** `zEmpty24` is valid, contiguous, and
     its member table is read correctly; rewriting it with nothing deleted puts the directory 8 bytes
